@@ -33,10 +33,20 @@ def ratio_grid(rnd, thorough):
     add(model.power(model.mag_from_fraction(10), -30), "10^-30")
     add(model.power(model.mag_from_fraction(10), 309), "10^309")
     add({2: Fraction(-200)}, "2^-200")
+    # the subnormal band of float and double (exactly representable ratios and one that underflows)
+    add({2: Fraction(-127)}, "2^-127")
+    add({2: Fraction(-130), 3: Fraction(1)}, "3*2^-130")
+    add({2: Fraction(-140)}, "2^-140")
+    add({2: Fraction(-149)}, "2^-149")
+    add({2: Fraction(-150)}, "2^-150")
+    add({2: Fraction(-1023)}, "2^-1023")
+    add({2: Fraction(-1030), 5: Fraction(1)}, "5*2^-1030")
+    add({2: Fraction(-1060)}, "2^-1060")
+    add({2: Fraction(-1074)}, "2^-1074")
     add(model.mag_from_fraction(299792458), "299792458")
     if not thorough:
         keep = {"1", "1000", "127", "128", "256", "65535", "65536", "2147483647", "2147483648", "4294967296", "9223372036854775807", "9223372036854775808",
-                "18446744073709551615", "2^64", "1/3", "2^61-1", "pi", "10^30", "10^39", "10^309", "2^-200", "299792458", "7/5"}
+                "18446744073709551615", "2^64", "1/3", "2^61-1", "pi", "10^30", "10^39", "10^309", "2^-200", "299792458", "7/5", "2^-127", "2^-140", "5*2^-1030", "2^-1060", "2^-150"}
         g = [x for x in g if x[1] in keep]
     return g
 
@@ -77,7 +87,7 @@ def body(ctx):
     grid = ratio_grid(rnd, ctx.thorough)
     triples = []
     for c in cons:
-        rs = grid if ctx.thorough or c[0] in ("SPEED_OF_LIGHT", "g_compound", "g_unity") else rnd.sample(grid, 7)
+        rs = grid if ctx.thorough or c[0] in ("SPEED_OF_LIGHT", "g_compound", "g_unity") else rnd.sample(grid, 9)
         for (rm, rn) in rs:
             ts = TYPES if ctx.thorough else rnd.sample(INT_T, 3) + FP_T
             for t in ts:
@@ -215,7 +225,7 @@ def body(ctx):
             ctx.violation(key, what, detail)
     ctx.coverage.update(dict(
         evaluations=len(triples) + len(items) * len(configs) + ni[0], distinct_nontrivial=len(triples) + ni[0],
-        rule="(constant, target unit, type) triples over the library's constants (discovered from au/constants/) and generated constants x target units whose ratio straddles each type's maximum (plus rationals, a huge prime, pi, 10^+-30, 10^309, 2^-200) x 11 types: can_store_value_in extracted and compared with exact arithmetic; availability iff representable and exact values as static_asserts; refused forms as compile-fail witnesses; composition items per constant; identity-dataflow IR wrappers per (constant, rep, form)",
+        rule="(constant, target unit, type) triples over the library's constants (discovered from au/constants/) and generated constants x target units whose ratio straddles each type's maximum (plus rationals, a huge prime, pi, 10^+-30, 10^309, 2^-200, the subnormal bands of float and double) x 11 types: can_store_value_in extracted and compared with exact arithmetic; availability iff representable and exact values as static_asserts; refused forms as compile-fail witnesses; composition items per constant; identity-dataflow IR wrappers per (constant, rep, form)",
         samples=[dict(triple="%s / %s -> %s" % (triples[0][0][0], triples[0][2], triples[0][3]))], exhaustive=False,
         constants=len(cons), library_constants=len(consts), triples=len(triples), model_obligations=nob, model_discharged=ndis,
         w_items=len(items), w_mismatches=nbad, ir_identity_wrappers=ni[0], ir_identity_ok=ni[1], configs=[c.name for c in configs], engine_stats=stats))
